@@ -10,13 +10,14 @@ import convlib as cl
 ID = "C02"
 COQ_PROPS = "Props/C02.v"
 COQ_EXTRA_TARGETS = ["Conv/CorrGeom.vo"]
-THEOREMS = ["C02_values", "C02_geometry", "C02_geometry_sources", "C02_invariance", "C02_dtype"]
+THEOREMS = ["C02_values", "C02_geometry", "C02_geometry_sources", "C02_invariance", "C02_dtype", "C02_dtype_lattice"]
 ALLOWED_AXIOMS = []
 TABLES = ["t_stack", "t_time", "t_conv"]
 RULE = ("complete S x T x V grids (quick: S <= 3, T, V <= 2; thorough: S <= 5, T, V <= 3) x orientation {axial, sagittal, coronal, in-plane "
         "rotated, oblique with dyadic near-Pythagorean cosines (exact stream), oblique with float 3-4-5 / 2-3-6 cosines (2^-30 stream)} x "
         "both slice directions x pixel matrices 2x2..3x4 with unique stored values per (file, row, column) x dyadic spacings / gaps / origins "
-        "x signed / unsigned x BitsStored {8, 12, 15, 16} x integral rescale slope / intercept x voxel order (quick: 8 of the 48 + '' + default; "
+        "x signed / unsigned x BitsStored {8, 12, 15, 16} x BitsAllocated {8, 16, 32} x rescale slope / intercept (integral and k/4), each of these "
+        "uniform or DIFFERING between the files of the series (30 % each) x voxel order (quick: 8 of the 48 + '' + default; "
         "thorough: all 48 + '' + default) x time / vector ordering explicit or guessed x shuffled add order; a second voxel order per case for the "
         "invariance oracle; a small error stream (invalid codes, incomplete grid).  non-trivial = reorientation is not the identity, or more "
         "than one slice / volume")
@@ -31,65 +32,122 @@ TRUSTED_BASE = [
 ]
 ASSUMPTIONS = [
     "classic single-frame data sets (one rows x cols image per file); mosaic / enhanced multi-frame wrappers are outside the model",
-    "pixel values after the DICOM rescale are integers (integral RescaleSlope / RescaleIntercept) and stored values fit BitsStored; all files "
-    "of a series share the stored dtype and rescale",
+    "pixel values after the DICOM rescale are integers or dyadic fractions (RescaleSlope / RescaleIntercept integral or k/4; the harness "
+    "passes value x common denominator to the model, which only moves values around) and stored values fit BitsStored; the files of a "
+    "series may differ in rescale, BitsStored, signedness and BitsAllocated (8 / 16 / 32-signed)",
+    "dtype lattice int8, uint8, int16, uint16, int32, float32, float64 (uint32 and wider are outside the model)",
     "C02_geometry: the files' positions lie on a line with equal gaps (hypothesis on_line; derived in C02_geometry_sources from: shared "
     "orientation / spacing, displacement proportional to the slice indicator, positions in exact arithmetic progression); the code itself only "
     "checks spacing to 4 % and takes the slice column from the first two sorted files",
     "float rounding on non-dyadic geometry is not modelled (compared to 2^-30 only)",
 ]
 
-NAME = "main"
-CORR_REQUIRE = "From Coq Require Import Qcanon.\nFrom DV Require Import Stack.Model Orient.Model Conv.Geom Conv.Header Conv.CorrGeom."
-CORR_CASE_TYPE = "CorrGeom.case"
-CORR_CHECK = "CorrGeom.check_geom"
-CORR_SHOW = "CorrGeom.show"
-SHARD = 40
-IMPL_TIMEOUT = 30
+class Main:
+    NAME = "main"
+    CORR_REQUIRE = "From Coq Require Import Qcanon.\nFrom DV Require Import Stack.Model Orient.Model Conv.Geom Conv.Header Conv.CorrGeom."
+    CORR_CASE_TYPE = "CorrGeom.case"
+    CORR_CHECK = "CorrGeom.check_geom"
+    CORR_SHOW = "CorrGeom.show"
+    SHARD = 40
+    IMPL_TIMEOUT = 30
+    RULE = RULE
+
+    @staticmethod
+    def gen_cases(rng, tier):
+        n = 520 if tier == 'quick' else 6000
+        out = []
+        # systematic block: every orientation x both directions x a permuting and a flipping order
+        for orient in sorted(cl.ALL_ORIENTS):
+            for direction in (1, -1):
+                for vo in (['LAS', 'SPR', ''] if tier == 'quick' else ['LAS', 'SPR', 'IRA', 'PIL', '']):
+                    out.append(cl.gen_stack_case(rng, tier, orient=orient, direction=direction, vo=vo, S=rng.choice([2, 3]),
+                                                 gap=2.0, ps=[0.5, 0.75], origin=[-8., 4., 16.25]))
+        if tier != 'quick':
+            for vo in cl.CODES48:
+                for orient in ('sag', 'dd', 'cor'):
+                    out.append(cl.gen_stack_case(rng, tier, orient=orient, vo=vo, S=3, T=2, V=2, gap=2.0, ps=[0.5, 0.75]))
+        # dtype block: uniform formats ...
+        for bits in (8, 12, 15, 16):
+            for pixrep in (0, 1):
+                for sl_ic in ((None, None), (2, -3), (1, 0), (0.5, None)):
+                    out.append(cl.gen_stack_case(rng, tier, bits=bits, pixrep=pixrep, slope=sl_ic[0], intercept=sl_ic[1], S=2, T=1, V=1,
+                                                 rows=2, cols=3, alloc=16, pixmix=[], kind='dtype-%d-%s' % (bits, 's' if pixrep else 'u')))
+        # ... and formats differing between the files of one series (F21)
+        for mix in (['rescale'], ['bits'], ['sign'], ['alloc'], ['rescale', 'sign'], ['bits', 'sign'], ['rescale', 'bits', 'sign', 'alloc']):
+            for rep in range(4 if tier == 'quick' else 20):
+                out.append(cl.gen_stack_case(rng, tier, pixmix=mix, S=rng.choice([2, 3]), T=rng.choice([1, 2]), V=1, rows=2, cols=2,
+                                             bits=rng.choice([12, 16]), alloc=16, kind='mixed-' + '+'.join(mix)))
+        while len(out) < n:
+            out.append(cl.gen_stack_case(rng, tier))
+        out += cl.error_cases(rng, tier)
+        return out
+
+    @staticmethod
+    def run_impl(case):
+        import dcmstack
+        return cl.run_conversion_case(dcmstack, case)
+
+    coq_case = staticmethod(cl.coq_case)
+    oracle = staticmethod(cl.oracle_c02)
+
+    @staticmethod
+    def signature(case, obs, msg):
+        return 'c02-' + cl.signature_of(msg)
+
+    @staticmethod
+    def nontrivial(case, obs):
+        if not isinstance(obs, dict) or obs.get('err') is not None:
+            return case.get('expect') == 'error'
+        return case.get('vo') != '' or len(case['files']) > 1
+
+    shrink = staticmethod(cl.shrink_case)
 
 
-def gen_cases(rng, tier):
-    n = 420 if tier == 'quick' else 6000
-    out = []
-    # systematic block: every orientation x both directions x a permuting and a flipping order
-    for orient in sorted(cl.ALL_ORIENTS):
-        for direction in (1, -1):
-            for vo in (['LAS', 'SPR', ''] if tier == 'quick' else ['LAS', 'SPR', 'IRA', 'PIL', '']):
-                out.append(cl.gen_stack_case(rng, tier, orient=orient, direction=direction, vo=vo, S=rng.choice([2, 3]),
-                                             gap=2.0, ps=[0.5, 0.75], origin=[-8., 4., 16.25]))
-    if tier != 'quick':
-        for vo in cl.CODES48:
-            for orient in ('sag', 'dd', 'cor'):
-                out.append(cl.gen_stack_case(rng, tier, orient=orient, vo=vo, S=3, T=2, V=2, gap=2.0, ps=[0.5, 0.75]))
-    # dtype block
-    for bits in (8, 12, 15, 16):
-        for pixrep in (0, 1):
-            for sl_ic in ((None, None), (2, -3), (1, 0)):
-                out.append(cl.gen_stack_case(rng, tier, bits=bits, pixrep=pixrep, slope=sl_ic[0], intercept=sl_ic[1], S=2, T=1, V=1,
-                                             rows=2, cols=3, kind='dtype-%d-%s' % (bits, 's' if pixrep else 'u')))
-    while len(out) < n:
-        out.append(cl.gen_stack_case(rng, tier))
-    out += cl.error_cases(rng, tier)
-    return out
+class Lattice:
+    """numpy's result_type on the modelled dtype lattice (all pairs, all triples, a sample of longer tuples)"""
+    NAME = "lattice"
+    CORR_REQUIRE = "From DV Require Import Conv.Geom Conv.CorrGeom."
+    CORR_CASE_TYPE = "CorrGeom.lcase"
+    CORR_CHECK = "CorrGeom.check_lattice"
+    CORR_SHOW = "CorrGeom.show_lattice"
+    SHARD = 400
+    RULE = "np.result_type of every pair and triple of {int8, uint8, int16, uint16, int32, float32, float64} and of random 4..7-tuples"
+    NAMES = ['int8', 'uint8', 'int16', 'uint16', 'int32', 'float32', 'float64']
+
+    @staticmethod
+    def gen_cases(rng, tier):
+        import itertools
+        out = [{'kind': 'single', 'args': [a]} for a in Lattice.NAMES]
+        out += [{'kind': 'pair', 'args': list(t)} for t in itertools.product(Lattice.NAMES, repeat=2)]
+        out += [{'kind': 'triple', 'args': list(t)} for t in itertools.product(Lattice.NAMES, repeat=3)]
+        for _ in range(200 if tier == 'quick' else 3000):
+            out.append({'kind': 'tuple', 'args': [rng.choice(Lattice.NAMES) for _ in range(rng.randrange(4, 8))]})
+        return out
+
+    @staticmethod
+    def run_impl(case):
+        import numpy as np
+        return {'res': str(np.result_type(*[np.dtype(a) for a in case['args']])),
+                'set': str(np.result_type(*set(np.dtype(a) for a in case['args'])))}
+
+    @staticmethod
+    def coq_case(case, obs):
+        from vlib.coqlit import cstr, clist
+        if obs['res'] != obs['set']:
+            raise ValueError('result_type depends on more than the set of dtypes: %r' % (obs,))
+        return '(mklcase %s %s)' % (clist(cstr(a) for a in case['args']), cstr(obs['res']))
+
+    @staticmethod
+    def oracle(case, obs):
+        return None
+
+    @staticmethod
+    def signature(case, obs, msg):
+        return 'c02-lattice'
+
+    @staticmethod
+    def nontrivial(case, obs):
+        return len(set(case['args'])) > 1
 
 
-def run_impl(case):
-    import dcmstack
-    return cl.run_conversion_case(dcmstack, case)
-
-
-coq_case = cl.coq_case
-oracle = cl.oracle_c02
-
-
-def signature(case, obs, msg):
-    return 'c02-' + cl.signature_of(msg)
-
-
-def nontrivial(case, obs):
-    if not isinstance(obs, dict) or obs.get('err') is not None:
-        return case.get('expect') == 'error'
-    return case.get('vo') != '' or len(case['files']) > 1
-
-
-shrink = cl.shrink_case
+PARTS = [Main, Lattice]
